@@ -16501,11 +16501,11 @@ protected:
 
 #if HFSM2_SERIALIZATION_AVAILABLE() || HFSM2_TRANSITION_HISTORY_AVAILABLE()
 	using Base::_apex;
+	HFSM2_IF_STRUCTURE_REPORT(using Base::udpateActivity);
 #endif
 
 #if HFSM2_TRANSITION_HISTORY_AVAILABLE()
 	using Base::applyRequests;
-	HFSM2_IF_STRUCTURE_REPORT(using Base::udpateActivity);
 #endif
 };
 
